@@ -16,6 +16,8 @@ def ref_pvv(pin, key, idx, pan):
 
 
 def oracle(inp):
+    if not isinstance(inp, dict) or inp.get('kind') not in ('pvv','zmk','kcv'):
+        return None          # unknown input kind (model of another property's unit)
     import warnings
     warnings.simplefilter('ignore')
     from cardutil import pinblock as pb, key as K
